@@ -130,6 +130,19 @@ theorem frame_delTable (q : Peer) (s : State) (id : ReqId) (k : Serial) (o : Obj
   active := rfl
   execs := rfl
 
+/-- the guard compares the entry's peer with the sender (in either order) -/
+def GoodGuard (g : PeerGuard) : Bool :=
+  (g.lhs == .entryPeer && g.rhs == .sender) || (g.lhs == .sender && g.rhs == .entryPeer)
+
+/-- a guard that compares the entry's peer with the sender skips exactly the requests whose ID is in
+    the table for another peer -/
+theorem guardSkips_good (g : PeerGuard) (hg : GoodGuard g = true) (s : State) (q : Peer) (x : Request) :
+    guardSkips g s q x = foreign s q x := by
+  obtain ⟨key, l, r⟩ := g
+  unfold guardSkips foreign
+  cases l <;> cases r <;> simp [GoodGuard] at hg <;>
+    (split <;> simp [evalPeer, bne_comm])
+
 theorem foreign_false {s : State} {q : Peer} {x : Request} {k : Serial} {o : Obj}
     (hf : foreign s q x = false) (hl : s.lookup x.id = some (k, o)) : o.peer = q := by
   unfold foreign at hf
@@ -187,9 +200,9 @@ theorem unpause_frame (q : Peer) (s : State) (id : ReqId)
     split
     · exact ⟨Frame.refl q s, allPeer_nil q⟩
     · refine ⟨?_, allPeer_cons hp (allPeer_nil q)⟩
-      have f1 := frame_setObj q s k o { o with state := .queued } hk hp
+      have f1 := frame_setObj q s k o { o with state := .queued, sigPause := false } hk hp
       refine Frame.trans f1 ?_
-      have := frame_pushPending q (s.setObj k { o with state := .queued }) id
+      have := frame_pushPending q (s.setObj k { o with state := .queued, sigPause := false }) id
       simpa [hp, State.setObj] using this
 
 theorem abort_frame (q : Peer) (s : State) (id : ReqId) (err : ErrK)
@@ -275,6 +288,413 @@ theorem new_frame (q : Peer) (s : State) (x : Request)
     · cases x.rh <;> simp [List.filter_append]
   · cases x.rh <;>
       exact allPeer_append (allPeer_cons rfl (allPeer_cons rfl (allPeer_nil q))) (allPeer_cons rfl (allPeer_nil q))
+
+/-! ### objects never change the peer they are served to -/
+
+/-- every object of `s'` already existed in `s` with the same peer -/
+def PeersKept (s s' : State) : Prop := ∀ j o1, s'.obj j = some o1 → ∃ o0, s.obj j = some o0 ∧ o0.peer = o1.peer
+
+theorem PeersKept.refl (s : State) : PeersKept s s := fun _ o h => ⟨o, h, rfl⟩
+theorem PeersKept.trans {s s' s'' : State} (h1 : PeersKept s s') (h2 : PeersKept s' s'') : PeersKept s s'' := by
+  intro j o2 h
+  obtain ⟨o1, ho1, hp1⟩ := h2 j o2 h
+  obtain ⟨o0, ho0, hp0⟩ := h1 j o1 ho1
+  exact ⟨o0, ho0, hp0.trans hp1⟩
+
+theorem peersKept_setObj (s : State) (k : Serial) (o o' : Obj) (hk : s.obj k = some o) (hp : o'.peer = o.peer) :
+    PeersKept s (s.setObj k o') := by
+  intro j o1 h
+  by_cases hj : k = j
+  · subst hj
+    have hlt : k < s.objs.length := (List.getElem?_eq_some_iff.mp (by simpa [State.obj] using hk)).1
+    simp [State.setObj, State.obj, hlt] at h
+    subst h
+    exact ⟨o, hk, hp.symm⟩
+  · rw [obj_setObj_ne s k j o' hj] at h
+    exact ⟨o1, h, rfl⟩
+
+theorem peersKept_of_objs_eq {s s' : State} (h : s'.objs = s.objs) : PeersKept s s' := by
+  intro j o1 hj
+  exact ⟨o1, by simpa [State.obj, h] using hj, rfl⟩
+
+theorem terminate_peersKept (s : State) (id : ReqId) : PeersKept s (terminate s id).1 := by
+  unfold terminate
+  split
+  · exact PeersKept.refl s
+  · rename_i k o hl
+    obtain ⟨_, hk⟩ := lookup_some hl
+    refine PeersKept.trans (peersKept_setObj s k o { o with ctxCancelled := true } hk rfl) ?_
+    exact peersKept_of_objs_eq rfl
+
+theorem abort_peersKept (s : State) (id : ReqId) (err : ErrK) : PeersKept s (abortRequest s id err).1 := by
+  unfold abortRequest
+  split
+  · exact PeersKept.refl s
+  · rename_i k o hl
+    obtain ⟨_, hk⟩ := lookup_some hl
+    have h0 : PeersKept s { s with pending := eraseFirst s.pending (o.peer, id) } := peersKept_of_objs_eq rfl
+    have hk1 : ({ s with pending := eraseFirst s.pending (o.peer, id) } : State).obj k = some o := by
+      simpa [State.obj] using hk
+    simp only
+    split
+    · exact h0
+    · split
+      · split
+        · exact PeersKept.trans h0 (terminate_peersKept _ id)
+        · exact PeersKept.trans h0 (terminate_peersKept _ id)
+        · exact PeersKept.trans h0 (peersKept_setObj _ k o _ hk1 rfl)
+      · refine PeersKept.trans h0 (peersKept_setObj _ k o _ hk1 ?_)
+        split <;> rfl
+
+/-! ### the message subscriber's notification (no other message in between) -/
+
+theorem closer_hown (s : State) (k : Serial) (id : ReqId) (p : Peer)
+    (hpeer : ∀ o', s.obj k = some o' → o'.peer = p) (h : closerApplies .ownResponse s k id = true) :
+    ∀ k' o', s.lookup id = some (k', o') → o'.peer = p := by
+  intro k' o' hl
+  obtain ⟨ht, hk'⟩ := lookup_some hl
+  have : s.table.get id = some k := by simpa [closerApplies] using h
+  rw [this] at ht
+  cases ht
+  exact hpeer o' hk'
+
+theorem closeTerm_frame (p : Peer) (s : State) (k : Serial) (id : ReqId) (b : Bool)
+    (hpeer : ∀ o', s.obj k = some o' → o'.peer = p) :
+    Frame p s (closeTerm .ownResponse s k id b).1 ∧ AllPeer p (closeTerm .ownResponse s k id b).2 := by
+  unfold closeTerm
+  split
+  · rename_i h
+    have h2 : closerApplies .ownResponse s k id = true := by
+      cases b <;> simp_all
+    exact terminate_frame p s id (closer_hown s k id p hpeer h2)
+  · exact ⟨Frame.refl p s, allPeer_nil p⟩
+
+theorem peer_of_kept {s s' : State} (hk : PeersKept s s') (k : Serial) (p : Peer)
+    (hpeer : ∀ o', s.obj k = some o' → o'.peer = p) : ∀ o', s'.obj k = some o' → o'.peer = p := by
+  intro o' h
+  obtain ⟨o0, h0, hp0⟩ := hk k o' h
+  rw [← hp0]; exact hpeer o0 h0
+
+theorem closeNetErr_frame (p : Peer) (s : State) (k : Serial) (id : ReqId)
+    (hpeer : ∀ o', s.obj k = some o' → o'.peer = p) :
+    Frame p s (closeNetErr .ownResponse s k id).1 ∧ AllPeer p (closeNetErr .ownResponse s k id).2.1
+    ∧ PeersKept s (closeNetErr .ownResponse s k id).1 := by
+  unfold closeNetErr
+  split
+  · rename_i h
+    obtain ⟨fa, ea⟩ := abort_frame p s id .network (closer_hown s k id p hpeer h)
+    exact ⟨fa, ea, abort_peersKept _ _ _⟩
+  · exact ⟨Frame.refl _ _, allPeer_nil _, PeersKept.refl _⟩
+
+theorem notifyErr_frame (d : List DispatchCase) (s0 : State) (k : Serial) (o : Obj) (term : Bool)
+    (hp0 : ∀ o', s0.obj k = some o' → o'.peer = o.peer) :
+    Frame o.peer s0 (notifyErr d .ownResponse s0 k o term none).1
+    ∧ AllPeer o.peer (notifyErr d .ownResponse s0 k o term none).2.1 := by
+  unfold notifyErr
+  obtain ⟨fa, ea, pka⟩ := closeNetErr_frame o.peer s0 k o.id hp0
+  have hpa := peer_of_kept pka k o.peer hp0
+  have hnev : AllPeer o.peer (if (closeNetErr .ownResponse s0 k o.id).2.2 = .ok then [Ev.lNetErr o.peer o.id] else []) := by
+    split
+    · exact allPeer_cons (ev := Ev.lNetErr o.peer o.id) rfl (allPeer_nil _)
+    · exact allPeer_nil _
+  simp only [injectMsg]
+  split
+  · obtain ⟨ft, et⟩ := closeTerm_frame o.peer _ k o.id term hpa
+    exact ⟨Frame.trans fa ft,
+      allPeer_append (allPeer_append (allPeer_append ea (allPeer_nil _)) et) hnev⟩
+  · obtain ⟨ft, et⟩ := closeTerm_frame o.peer _ k o.id term hpa
+    exact ⟨Frame.trans fa ft,
+      allPeer_append (allPeer_append (allPeer_append ea et) hnev) (allPeer_nil _)⟩
+
+theorem notifySent_frame (s0 : State) (k : Serial) (o : Obj) (code : Option Nat) (term : Bool)
+    (hp0 : ∀ o', s0.obj k = some o' → o'.peer = o.peer) :
+    Frame o.peer s0 (notifySent .ownResponse s0 k o code term).1
+    ∧ AllPeer o.peer (notifySent .ownResponse s0 k o code term).2.1 := by
+  unfold notifySent
+  split
+  · obtain ⟨ft, et⟩ := closeTerm_frame o.peer s0 k o.id true hp0
+    exact ⟨ft, allPeer_append et (allPeer_cons (ev := Ev.lCompleted o.peer o.id _) rfl (allPeer_nil _))⟩
+  · exact ⟨Frame.refl _ _, allPeer_nil _⟩
+
+/-- A notification of the message that carried response object `k`'s operations — with the closer
+    calls restricted to the subscriber's own response — stays within the peer that response is
+    served to: objects, table entries and queued tasks of every other peer are untouched and every
+    event concerns that peer. -/
+theorem notify_frame (d : List DispatchCase) (s : State) (k : Serial) (o : Obj) (isErr : Bool)
+    (hk : s.obj k = some o) :
+    Frame o.peer s (notify d .ownResponse s k isErr none).1
+    ∧ AllPeer o.peer (notify d .ownResponse s k isErr none).2.1 := by
+  have f0 := frame_setObj o.peer s k o { o with finCode := none } hk rfl
+  have pk0 := peersKept_setObj s k o { o with finCode := none } hk rfl
+  have hp0 : ∀ o', (s.setObj k { o with finCode := none }).obj k = some o' → o'.peer = o.peer :=
+    peer_of_kept pk0 k o.peer (fun o' h => by rw [hk] at h; cases h; rfl)
+  unfold notify
+  simp only [hk]
+  cases isErr with
+  | true =>
+    obtain ⟨f, e⟩ := notifyErr_frame d _ k o (match o.finCode with | some c => Generated.StatusCodes.isTerminal c | none => false) hp0
+    exact ⟨Frame.trans f0 f, e⟩
+  | false =>
+    obtain ⟨f, e⟩ := notifySent_frame _ k o o.finCode (match o.finCode with | some c => Generated.StatusCodes.isTerminal c | none => false) hp0
+    exact ⟨Frame.trans f0 f, e⟩
+
+/-! ### the executor's calls into the manager (StartTask / GetUpdates / FinishTask are all by request ID) -/
+
+/-- like `Frame` without the executor bookkeeping (an executor step ends executors) -/
+structure FrameW (q : Peer) (s s' : State) : Prop where
+  objs : ∀ k o, s.obj k = some o → o.peer ≠ q → s'.obj k = some o
+  table : ∀ id k o, s.table.get id = some k → s.obj k = some o → o.peer ≠ q → s'.table.get id = some k
+  pending : s'.pending.filter (fun t => t.1 != q) = s.pending.filter (fun t => t.1 != q)
+
+theorem Frame.toW {q : Peer} {s s' : State} (h : Frame q s s') : FrameW q s s' := ⟨h.objs, h.table, h.pending⟩
+theorem FrameW.refl (q : Peer) (s : State) : FrameW q s s := (Frame.refl q s).toW
+theorem FrameW.trans {q : Peer} {s s' s'' : State} (h1 : FrameW q s s') (h2 : FrameW q s' s'') : FrameW q s s'' where
+  objs := fun k o hk hp => h2.objs k o (h1.objs k o hk hp) hp
+  table := fun id k o ht hk hp => h2.table id k o (h1.table id k o ht hk hp) (h1.objs k o hk hp) hp
+  pending := by rw [h2.pending, h1.pending]
+
+/-- the executor `e` works for peer `p` on an object served to `p`, and the table entry under its
+    request ID (if any) is served to `p` as well -/
+structure OwnExec (s : State) (e : Exec) (p : Peer) : Prop where
+  task : e.task.1 = p
+  obj : ∀ o, s.obj e.k = some o → o.peer = p
+  entry : ∀ k o, s.lookup e.task.2 = some (k, o) → o.peer = p
+
+theorem ownExec_of_kept {s s' : State} {e : Exec} {p : Peer} (h : OwnExec s e p) (hk : PeersKept s s')
+    (ht : s'.table = s.table) : OwnExec s' e p where
+  task := h.task
+  obj := peer_of_kept hk e.k p h.obj
+  entry := by
+    intro k o hl
+    obtain ⟨htk, hko⟩ := lookup_some hl
+    obtain ⟨o0, ho0, hp0⟩ := hk k o hko
+    rw [ht] at htk
+    have : s.lookup e.task.2 = some (k, o0) := by simp [State.lookup, htk, ho0]
+    rw [← hp0]; exact h.entry k o0 this
+
+theorem runUpdateHooks_allPeer (p : Peer) (k : Serial) (o : Obj) (hp : o.peer = p) (us : List UpdHook) (acc : List Ev)
+    (ha : AllPeer p acc) : AllPeer p (runUpdateHooks p k o us acc).1 := by
+  induction us generalizing acc with
+  | nil => simpa [runUpdateHooks] using ha
+  | cons u rest ih =>
+    have h1 : AllPeer p (acc ++ [Ev.hookUpd p o.id]) := allPeer_append ha (allPeer_cons rfl (allPeer_nil p))
+    cases u with
+    | ext => simp only [runUpdateHooks]; exact ih _ (allPeer_append h1 (allPeer_cons hp (allPeer_nil p)))
+    | err => simpa [runUpdateHooks] using h1
+    | none => simp only [runUpdateHooks]; exact ih _ h1
+    | unpause => simp only [runUpdateHooks]; exact ih _ h1
+
+/-- what `s.setObj k o'` keeps when `o'` is served to the same peer as the object it replaces -/
+theorem setObj_steps (p : Peer) (s : State) (k : Serial) (o o' : Obj) (hk : s.obj k = some o) (hp : o.peer = p)
+    (hp' : o'.peer = o.peer) :
+    Frame p s (s.setObj k o') ∧ PeersKept s (s.setObj k o') ∧ (s.setObj k o').table = s.table :=
+  ⟨frame_setObj p s k o o' hk hp, peersKept_setObj s k o o' hk hp', rfl⟩
+
+theorem getUpdates_frame (p : Peer) (s : State) (id : ReqId)
+    (hown : ∀ k o, s.lookup id = some (k, o) → o.peer = p) :
+    Frame p s (getUpdates s id).2 ∧ PeersKept s (getUpdates s id).2 ∧ (getUpdates s id).2.table = s.table := by
+  unfold getUpdates
+  split
+  · exact ⟨Frame.refl p s, PeersKept.refl s, rfl⟩
+  · rename_i k2 o2 hl2
+    obtain ⟨_, hk2⟩ := lookup_some hl2
+    exact setObj_steps p s k2 o2 { o2 with updates := [] } hk2 (hown k2 o2 hl2) rfl
+
+theorem checkForUpdates_frame (p : Peer) (fuel : Nat) (s : State) (e : Exec) (h : OwnExec s e p) :
+    Frame p s (checkForUpdates fuel s e).1 ∧ AllPeer p (checkForUpdates fuel s e).2.1
+    ∧ PeersKept s (checkForUpdates fuel s e).1 ∧ (checkForUpdates fuel s e).1.table = s.table := by
+  induction fuel generalizing s with
+  | zero => exact ⟨Frame.refl p s, allPeer_nil p, PeersKept.refl s, rfl⟩
+  | succ fuel ih =>
+    unfold checkForUpdates
+    split
+    · exact ⟨Frame.refl p s, allPeer_nil p, PeersKept.refl s, rfl⟩
+    · rename_i o ho
+      have hpo := h.obj o ho
+      split
+      · obtain ⟨f, k, t⟩ := setObj_steps p s e.k o { o with sigPause := false } ho hpo rfl
+        exact ⟨f, allPeer_cons hpo (allPeer_nil p), k, t⟩
+      · split
+        · obtain ⟨f, k, t⟩ := setObj_steps p s e.k o { o with sigErr := none } ho hpo rfl
+          exact ⟨f, allPeer_nil p, k, t⟩
+        · split
+          · -- an update signal: GetUpdates by ID
+            obtain ⟨f1, k1, t1⟩ := setObj_steps p s e.k o { o with sigUpdate := false } ho hpo rfl
+            have h1 : OwnExec (s.setObj e.k { o with sigUpdate := false }) e p := ownExec_of_kept h k1 t1
+            obtain ⟨f2, k2, t2⟩ := getUpdates_frame p _ e.task.2 h1.entry
+            simp only
+            generalize getUpdates (s.setObj e.k { o with sigUpdate := false }) e.task.2 = ups at f2 k2 t2 ⊢
+            obtain ⟨us, st⟩ := ups
+            have hrun : AllPeer p (runUpdateHooks e.task.1 e.k o us []).1 := by
+              rw [h.task]; exact runUpdateHooks_allPeer p e.k o hpo us [] (allPeer_nil p)
+            split
+            · exact ⟨Frame.trans f1 f2, hrun, PeersKept.trans k1 k2, by rw [t2, t1]⟩
+            · have h2 : OwnExec st e p := ownExec_of_kept h1 k2 t2
+              obtain ⟨f3, e3, k3, t3⟩ := ih st h2
+              exact ⟨Frame.trans f1 (Frame.trans f2 f3), allPeer_append hrun e3,
+                PeersKept.trans k1 (PeersKept.trans k2 k3), by rw [t3, t2, t1]⟩
+          · exact ⟨Frame.refl p s, allPeer_nil p, PeersKept.refl s, rfl⟩
+
+theorem finishTask_frame (p : Peer) (s : State) (t : Peer × ReqId) (err : Option ErrK) (paused : Bool)
+    (ht : t.1 = p) (hown : ∀ k o, s.lookup t.2 = some (k, o) → o.peer = p) :
+    FrameW p s (finishTask s t err paused).1 ∧ AllPeer p (finishTask s t err paused).2 := by
+  unfold finishTask
+  -- dropping the task / the executor changes neither objects, table nor queued tasks
+  have hl : ∀ id, ({ s with active := eraseFirst s.active t, execs := dropExec s.execs t } : State).lookup id = s.lookup id := by
+    intro id; simp [State.lookup, State.obj]
+  have f0 : FrameW p s { s with active := eraseFirst s.active t, execs := dropExec s.execs t } :=
+    ⟨fun _ _ h _ => h, fun _ _ _ h _ _ => h, rfl⟩
+  have hown1 : ∀ k o, ({ s with active := eraseFirst s.active t, execs := dropExec s.execs t } : State).lookup t.2 = some (k, o) → o.peer = p := by
+    intro k o h; rw [hl] at h; exact hown k o h
+  have hdone : AllPeer p [Ev.taskDone t.1 t.2] := allPeer_cons ht (allPeer_nil p)
+  simp only
+  split
+  · exact ⟨f0, hdone⟩
+  · rename_i k o hlk
+    have hp := hown1 k o hlk
+    obtain ⟨_, hk⟩ := lookup_some hlk
+    split
+    · split
+      · refine ⟨FrameW.trans f0 ?_, allPeer_append hdone (allPeer_cons hp (allPeer_nil p))⟩
+        have := frame_pushPending p { s with active := eraseFirst s.active t, execs := dropExec s.execs t } t.2
+        rw [hp]; exact this.toW
+      · exact ⟨f0, hdone⟩
+    · split
+      · obtain ⟨ft, et⟩ := terminate_frame p _ t.2 hown1
+        exact ⟨FrameW.trans f0 ft.toW, allPeer_append hdone et⟩
+      · split
+        · exact ⟨FrameW.trans f0 (frame_setObj p _ k o _ hk hp).toW, hdone⟩
+        · split
+          · obtain ⟨ft, et⟩ := terminate_frame p _ t.2 hown1
+            exact ⟨FrameW.trans f0 ft.toW, allPeer_append (allPeer_append hdone (allPeer_cons ht (allPeer_nil p))) et⟩
+          · split
+            · obtain ⟨ft, et⟩ := terminate_frame p _ t.2 hown1
+              exact ⟨FrameW.trans f0 ft.toW, allPeer_append hdone et⟩
+            · exact ⟨FrameW.trans f0 (frame_setObj p _ k o _ hk hp).toW, hdone⟩
+
+theorem findExec_task {l : List Exec} {t : Peer × ReqId} {e : Exec} (h : findExec l t = some e) : e.task = t := by
+  unfold findExec at h
+  have := List.find?_some h
+  simpa using this
+
+theorem hookOutcome_allPeer (p : Peer) (e : Exec) (o : Obj) (i : Nat) (hp : o.peer = p) :
+    AllPeer p (hookOutcome e o i).1 := by
+  unfold hookOutcome
+  split <;> (try split) <;> first | exact allPeer_cons hp (allPeer_nil p) | exact allPeer_nil p
+
+/-- after overwriting the executor's own object with one served to the same peer -/
+theorem ownExec_setObj {s : State} {e : Exec} {p : Peer} (h : OwnExec s e p) (o o' : Obj)
+    (hk : s.obj e.k = some o) (hp' : o'.peer = o.peer) :
+    OwnExec (s.setObj e.k o') e p ∧ Frame p s (s.setObj e.k o') ∧ (s.setObj e.k o').obj e.k = some o' := by
+  obtain ⟨f, k, t⟩ := setObj_steps p s e.k o o' hk (h.obj o hk) hp'
+  refine ⟨ownExec_of_kept h k t, f, ?_⟩
+  have hlt : e.k < s.objs.length := (List.getElem?_eq_some_iff.mp (by simpa [State.obj] using hk)).1
+  simp [State.setObj, State.obj, hlt]
+
+theorem sendBlock_frame (p : Peer) (s1 : State) (e : Exec) (o : Obj) (t : Peer × ReqId) (evs0 : List Ev) (b : Bool)
+    (h : OwnExec s1 e p) (het : e.task = t) (hk : s1.obj e.k = some o) (he0 : AllPeer p evs0) :
+    FrameW p s1 (sendBlock s1 e o t evs0 b).1 ∧ AllPeer p (sendBlock s1 e o t evs0 b).2.1 := by
+  have hp : o.peer = p := h.obj o hk
+  have htp : t.1 = p := by rw [← het]; exact h.task
+  unfold sendBlock
+  obtain ⟨h2, f2, hk2⟩ := ownExec_setObj h o { o with sent := o.sent + 1 } hk rfl
+  have hevs : AllPeer p (evs0 ++ [Ev.tx e.k o.peer o.id (.blk o.sent), Ev.hookBlk t.1 o.id o.sent] ++ (hookOutcome e o o.sent).1) :=
+    allPeer_append (allPeer_append he0 (allPeer_cons hp (allPeer_cons htp (allPeer_nil p)))) (hookOutcome_allPeer p e o _ hp)
+  have hent : ∀ {st : State}, OwnExec st e p → ∀ k o, st.lookup t.2 = some (k, o) → o.peer = p := by
+    intro st hst k o hl; rw [← het] at hl; exact hst.entry k o hl
+  simp only
+  split
+  · obtain ⟨h3, f3, _⟩ := ownExec_setObj h2 { o with sent := o.sent + 1 }
+      { o with sent := o.sent + 1, finCode := some Generated.StatusCodes.RequestFailedUnknown } hk2 rfl
+    obtain ⟨ff, ef⟩ := finishTask_frame p _ t (some .hook) false htp (hent h3)
+    exact ⟨FrameW.trans f2.toW (FrameW.trans f3.toW ff),
+      allPeer_append (allPeer_append hevs (allPeer_cons hp (allPeer_nil p))) ef⟩
+  · split
+    · obtain ⟨ff, ef⟩ := finishTask_frame p _ t none true htp (hent h2)
+      exact ⟨FrameW.trans f2.toW ff, allPeer_append hevs ef⟩
+    · split
+      · obtain ⟨h3, f3, _⟩ := ownExec_setObj h2 { o with sent := o.sent + 1 }
+          { o with sent := o.sent + 1, finCode := some Generated.StatusCodes.RequestCompletedFull } hk2 rfl
+        obtain ⟨ff, ef⟩ := finishTask_frame p _ t none false htp (hent h3)
+        exact ⟨FrameW.trans f2.toW (FrameW.trans f3.toW ff),
+          allPeer_append (allPeer_append hevs (allPeer_cons hp (allPeer_nil p))) ef⟩
+      · exact ⟨f2.toW, hevs⟩
+
+theorem abortTail_frame (p : Peer) (s1 : State) (e : Exec) (o : Obj) (err : ErrK)
+    (h : OwnExec s1 e p) (hk : s1.obj e.k = some o) :
+    OwnExec (abortTail s1 e o err).1 e p ∧ Frame p s1 (abortTail s1 e o err).1 ∧ AllPeer p (abortTail s1 e o err).2 := by
+  have hp : o.peer = p := h.obj o hk
+  unfold abortTail
+  split
+  · exact ⟨h, Frame.refl p s1, allPeer_cons hp (allPeer_nil p)⟩
+  · exact ⟨h, Frame.refl p s1, allPeer_cons hp (allPeer_nil p)⟩
+  · obtain ⟨h3, f3, _⟩ := ownExec_setObj h o { o with finCode := some Generated.StatusCodes.RequestCancelled } hk rfl
+    exact ⟨h3, f3, allPeer_cons hp (allPeer_nil p)⟩
+  · obtain ⟨h3, f3, _⟩ := ownExec_setObj h o { o with finCode := some Generated.StatusCodes.RequestFailedUnknown } hk rfl
+    exact ⟨h3, f3, allPeer_cons hp (allPeer_nil p)⟩
+
+/-- One executor step (the by-ID calls GetUpdates and FinishTask included) of an executor that works
+    for `p`, on an object served to `p`, while the table entry under its request ID — if there is
+    one — is served to `p`: objects, table entries and queued tasks of every other peer are
+    untouched and every event concerns `p`. -/
+theorem stepExec_frame (p : Peer) (s : State) (t : Peer × ReqId)
+    (hown : ∀ e, findExec s.execs t = some e → OwnExec s e p) :
+    FrameW p s (stepExec s t).1 ∧ AllPeer p (stepExec s t).2.1 := by
+  unfold stepExec
+  split
+  · exact ⟨FrameW.refl p s, allPeer_nil p⟩
+  · rename_i e he
+    have h := hown e he
+    have het := findExec_task he
+    split
+    · exact ⟨FrameW.refl p s, allPeer_nil p⟩
+    · rename_i o0 _
+      obtain ⟨fc, ec, kc, tc⟩ := checkForUpdates_frame p (o0.updates.length + 4) s e h
+      have hc : OwnExec (checkForUpdates (o0.updates.length + 4) s e).1 e p := ownExec_of_kept h kc tc
+      simp only
+      split
+      · exact ⟨FrameW.refl p s, allPeer_nil p⟩
+      · rename_i o ho
+        split
+        · rename_i err _
+          obtain ⟨ha, fa, ea⟩ := abortTail_frame p _ e o err hc ho
+          have hent : ∀ k o', (abortTail (checkForUpdates (o0.updates.length + 4) s e).1 e o err).1.lookup t.2 = some (k, o') → o'.peer = p := by
+            intro k o' hl; rw [← het] at hl; exact ha.entry k o' hl
+          have htp : t.1 = p := by rw [← het]; exact h.task
+          obtain ⟨ff, ef⟩ := finishTask_frame p _ t (some err) false htp hent
+          exact ⟨FrameW.trans fc.toW (FrameW.trans fa.toW ff), allPeer_append (allPeer_append ec ea) ef⟩
+        · obtain ⟨fs, es⟩ := sendBlock_frame p _ e o t _ _ hc het ho ec
+          exact ⟨FrameW.trans fc.toW fs, es⟩
+
+theorem startTask_frame (p : Peer) (s : State) (t : Peer × ReqId) (ht : t.1 = p)
+    (hown : ∀ k o, s.lookup t.2 = some (k, o) → o.peer = p) :
+    FrameW p s (startTask s t).1 ∧ AllPeer p (startTask s t).2.1 ∧ PeersKept s (startTask s t).1
+    ∧ (startTask s t).1.table = s.table := by
+  unfold startTask
+  split
+  · exact ⟨FrameW.refl p s, allPeer_nil p, PeersKept.refl s, rfl⟩
+  · have f0 : Frame p s { s with pending := eraseFirst s.pending t } := by
+      have := frame_erasePending p s t.2
+      rw [← ht] at this ⊢
+      simpa using this
+    have hl : ∀ id, ({ s with pending := eraseFirst s.pending t } : State).lookup id = s.lookup id := by
+      intro id; simp [State.lookup, State.obj]
+    have hdone : AllPeer p [Ev.taskDone t.1 t.2] := allPeer_cons ht (allPeer_nil p)
+    simp only
+    split
+    · exact ⟨f0.toW, hdone, peersKept_of_objs_eq rfl, rfl⟩
+    · rename_i k o hlk
+      rw [hl] at hlk
+      have hp := hown k o hlk
+      obtain ⟨_, hk⟩ := lookup_some hlk
+      have hk1 : ({ s with pending := eraseFirst s.pending t } : State).obj k = some o := by simpa [State.obj] using hk
+      split
+      · exact ⟨f0.toW, hdone, peersKept_of_objs_eq rfl, rfl⟩
+      · obtain ⟨f1, k1, _⟩ := setObj_steps p _ k o { o with started := true, state := .running, task := some s.nextTid } hk1 hp rfl
+        refine ⟨FrameW.trans f0.toW ⟨f1.objs, f1.table, f1.pending⟩, ?_, PeersKept.trans (peersKept_of_objs_eq rfl) (PeersKept.trans k1 (peersKept_of_objs_eq rfl)), rfl⟩
+        split
+        · exact allPeer_nil p
+        · exact allPeer_cons hp (allPeer_nil p)
 
 theorem processRequests_append (d : List DispatchCase) (q : Peer) (s : State) (a b : List Request) :
     processRequests d q s (a ++ b) =
